@@ -120,6 +120,68 @@ impl Sut for Diesel {
     }
 }
 
+// ... and its other recycling methods.  The health query fails (integer overflow) once the harness
+// has marked the connection invalid by creating a temp table.
+const HEALTH_SQL: &str = "SELECT CASE WHEN EXISTS (SELECT 1 FROM sqlite_temp_master WHERE name = 'bad') \
+                          THEN abs(-9223372036854775808) ELSE 1 END";
+fn diesel_break(c: &mut diesel::SqliteConnection) {
+    use diesel::connection::{AnsiTransactionManager, TransactionManager};
+    let _ = AnsiTransactionManager::begin_transaction(c);
+}
+fn diesel_invalidate(c: &mut diesel::SqliteConnection) {
+    use diesel::RunQueryDsl;
+    let _ = diesel::sql_query("CREATE TEMP TABLE bad(x)").execute(c);
+}
+fn diesel_pool(max: usize, m: deadpool_diesel::RecyclingMethod<diesel::SqliteConnection>) -> Pool<deadpool_diesel::sqlite::Manager> {
+    let cfg = deadpool_diesel::ManagerConfig { recycling_method: m };
+    Pool::builder(deadpool_diesel::sqlite::Manager::from_config(":memory:", Runtime::Tokio1, cfg)).max_size(max).build().unwrap()
+}
+pub struct DieselVerified;
+impl Sut for DieselVerified {
+    type C = diesel::SqliteConnection;
+    type M = deadpool_diesel::sqlite::Manager;
+    fn pool(max: usize) -> Pool<Self::M> {
+        diesel_pool(max, deadpool_diesel::RecyclingMethod::Verified)
+    }
+    fn break_conn(c: &mut Self::C) {
+        diesel_break(c)
+    }
+}
+pub struct DieselQuery;
+impl Sut for DieselQuery {
+    type C = diesel::SqliteConnection;
+    type M = deadpool_diesel::sqlite::Manager;
+    fn pool(max: usize) -> Pool<Self::M> {
+        diesel_pool(max, deadpool_diesel::RecyclingMethod::CustomQuery(HEALTH_SQL.into()))
+    }
+    fn break_conn(c: &mut Self::C) {
+        diesel_break(c)
+    }
+    fn invalidate(c: &mut Self::C) {
+        diesel_invalidate(c)
+    }
+}
+pub struct DieselFn;
+impl Sut for DieselFn {
+    type C = diesel::SqliteConnection;
+    type M = deadpool_diesel::sqlite::Manager;
+    fn pool(max: usize) -> Pool<Self::M> {
+        diesel_pool(
+            max,
+            deadpool_diesel::RecyclingMethod::CustomFunction(Box::new(|c: &mut diesel::SqliteConnection| {
+                use diesel::RunQueryDsl;
+                diesel::sql_query(HEALTH_SQL).execute(c).map(|_| ()).map_err(deadpool_diesel::Error::Ping)
+            })),
+        )
+    }
+    fn break_conn(c: &mut Self::C) {
+        diesel_break(c)
+    }
+    fn invalidate(c: &mut Self::C) {
+        diesel_invalidate(c)
+    }
+}
+
 #[derive(Default)]
 struct Gate {
     out: Mutex<Option<bool>>,
